@@ -602,17 +602,22 @@ class QueryObjectDescriptor(CanBehaveLikeAVariable[T], ABC):
                 for conclusion in self._child_._conclusion_:
                     v = conclusion._evaluate__(v)
             self._warn_on_unbound_variables_(v, selected_vars)
-            if selected_vars:
-                var_val_gen = {var: var._evaluate__(copy(v))
-                               for var in selected_vars}
-                original_v = v
-                for sol in generate_combinations(var_val_gen):
-                    v = copy(original_v)
-                    var_val = {var._id_: sol[var][var._id_] for var in selected_vars}
-                    v.update(var_val)
-                    yield v
-            else:
-                yield v
+            yield from self._bind_selected_variables_(v, list(selected_vars or []))
+
+    def _bind_selected_variables_(self, values: Dict[int, HashedValue],
+                                  selected_vars: List[CanBehaveLikeAVariable]) -> Iterable[Dict[int, HashedValue]]:
+        """
+        Bind the selected variables that are still unbound one after the other, so that a selected expression
+        stays correlated with the variables it depends on.
+        """
+        if not selected_vars:
+            yield values
+            return
+        var, remaining_vars = selected_vars[0], selected_vars[1:]
+        for var_val in var._evaluate__(copy(values)):
+            bound_values = copy(values)
+            bound_values.update(var_val)
+            yield from self._bind_selected_variables_(bound_values, remaining_vars)
 
     def _warn_on_unbound_variables_(self, sources: Dict[int, HashedValue],
                                     selected_vars: Iterable[CanBehaveLikeAVariable]):
